@@ -1,12 +1,754 @@
-//! C04: harness module (stub — not built yet)
-#![allow(dead_code, unused_imports, unused_variables)]
+//! C04: seeded simulations are reproducible.
+//!
+//! Every case is one (model, seed): a generated multi-module `des` network (2-6 modules, some of them
+//! children in the module tree, directed links with latency + jitter or channel-less, scripted modules
+//! that draw `des::runtime::random`, send / schedule messages and spawn tokio tasks which `sleep`,
+//! `tokio::select!` over 2-3 sleeps, draw and send).  `exec` executes the SAME (model, seed)
+//!
+//!   a1, a2  twice back to back in this process,
+//!   b       once more after an unrelated "noise" simulation of a different size (so that every
+//!           process-global counter, the leftover clock / RNG and the allocator state differ),
+//!   c       in a child process (`hx c04 exec` re-invoked through `std::env::current_exe()` with
+//!           `HX_C04_CHILD=1`; one child handles all cases of the batch that carry `child=1`),
+//!
+//! and writes the four canonical traces into the transcript.  The Lean driver compares the traces of
+//! the real runs with each other (kind=reject clause=nondeterminism) and with the trace of the model
+//! `Repro.run` replayed on the recorded random stream (kind=diverge).
+//!
+//! Script lines (objects are named by paths / tags, any line may be deleted):
+//!   mod <path> ttl=<n>                  a module; order of lines = creation order; a module whose parent
+//!                                       does not exist (yet) does not exist
+//!   link <src> <dst> lat=<ns> jit=<ns>  gate o_<dst> of <src> --channel--> gate i_<src> of <dst>
+//!   link <src> <dst> direct             the same without a channel
+//!   rule <path> start|end|msg:<kind> <step>...      first matching rule wins
+//!   task <tag> <step>...
+//!   step = draw | draw32 | send:<dst>:<kind> | sched:<delay>:<kind> | spawn:<task>
+//!        | sleep:<ns> | sel:<ns>,<ns>[,<ns>]        (spawn: handlers only; sleep, sel: tasks only)
+//! A message carries kind (selects the rule), ttl (header id; emissions need ttl > 0 and emit ttl-1) and
+//! a serial number (content) that counts the emissions of the run.
+//!
+//! Transcript: header extended with `tq=front|skip` (measured behaviour of `TimerQueue::next`, a model
+//! parameter), the script lines, then per run R in a1 a2 b c
+//!   o <R> <time> <path> <what> <who> <src> <args...>     canonical observation (no ids, no addresses)
+//!   d <R> <path> <task>                                  unfinished task dropped with the simulation
+//!   bt <R> <ns>                                          (header `clock=1`) `SimTime::now()` while the network is built
+//!   res <R> ok time=<ns> events=<n> left=<n> | err=<kind>
 use crate::rng::Rng;
 use crate::util::{cases, guarded, hval};
+use des::prelude::*;
+use std::fmt::Write;
+use std::future::Future;
+use std::io::Write as IoWrite;
+use std::pin::Pin;
+use std::sync::{Arc, Mutex};
+use std::task::{Context, Poll};
 
-pub fn gen(_seed: u64, _count: usize, _thorough: bool) -> String {
-    String::new()
+// ------------------------------------------------------------------------------------------ script
+
+#[derive(Clone, Debug)]
+enum Step {
+    Draw,
+    Draw32,
+    Send(String, u16),
+    Sched(u64, u16),
+    Spawn(String),
+    Sleep(u64),
+    Sel(Vec<u64>),
 }
 
-pub fn exec(_input: &str) -> String {
-    String::new()
+#[derive(Clone, Debug, PartialEq)]
+enum On {
+    Start,
+    End,
+    Msg(u16),
+}
+
+#[derive(Clone, Debug)]
+struct Link {
+    src: String,
+    dst: String,
+    chan: Option<(u64, u64)>,
+}
+
+#[derive(Default, Debug)]
+struct Net {
+    mods: Vec<(String, u16)>,
+    links: Vec<Link>,
+    rules: Vec<(String, On, Vec<Step>)>,
+    tasks: Vec<(String, Vec<Step>)>,
+}
+
+fn parse_step(t: &str) -> Option<Step> {
+    let p: Vec<&str> = t.split(':').collect();
+    match p.as_slice() {
+        ["draw"] => Some(Step::Draw),
+        ["draw32"] => Some(Step::Draw32),
+        ["send", dst, k] => Some(Step::Send(dst.to_string(), k.parse().ok()?)),
+        ["sched", d, k] => Some(Step::Sched(d.parse().ok()?, k.parse().ok()?)),
+        ["spawn", t] => Some(Step::Spawn(t.to_string())),
+        ["sleep", d] => Some(Step::Sleep(d.parse().ok()?)),
+        ["sel", ds] => {
+            let v: Option<Vec<u64>> = ds.split(',').map(|x| x.parse().ok()).collect();
+            let v = v?;
+            if v.len() == 2 || v.len() == 3 {
+                Some(Step::Sel(v))
+            } else {
+                None
+            }
+        }
+        _ => None,
+    }
+}
+
+fn parent_of(path: &str) -> Option<&str> {
+    path.rfind('.').map(|i| &path[..i])
+}
+
+fn parse(body: &[String]) -> Net {
+    let mut net = Net::default();
+    for line in body {
+        let t: Vec<&str> = line.split_whitespace().collect();
+        match t.as_slice() {
+            ["mod", path, rest @ ..] => {
+                if path.is_empty() || path.split('.').any(|c| c.is_empty()) {
+                    continue;
+                }
+                if net.mods.iter().any(|m| m.0 == *path) {
+                    continue;
+                }
+                if let Some(p) = parent_of(path) {
+                    if !net.mods.iter().any(|m| m.0 == p) {
+                        continue;
+                    }
+                }
+                let mut ttl = 0u16;
+                for kv in rest {
+                    if let Some(v) = kv.strip_prefix("ttl=") {
+                        ttl = v.parse().unwrap_or(0);
+                    }
+                }
+                net.mods.push((path.to_string(), ttl));
+            }
+            _ => {}
+        }
+    }
+    let has = |net: &Net, p: &str| net.mods.iter().any(|m| m.0 == p);
+    for line in body {
+        let t: Vec<&str> = line.split_whitespace().collect();
+        match t.as_slice() {
+            ["link", src, dst, rest @ ..] => {
+                if !has(&net, src) || !has(&net, dst) || src == dst {
+                    continue;
+                }
+                if net.links.iter().any(|l| l.src == *src && l.dst == *dst) {
+                    continue;
+                }
+                let mut lat = None;
+                let mut jit = None;
+                let mut direct = false;
+                for kv in rest {
+                    if let Some(v) = kv.strip_prefix("lat=") {
+                        lat = v.parse::<u64>().ok();
+                    } else if let Some(v) = kv.strip_prefix("jit=") {
+                        jit = v.parse::<u64>().ok();
+                    } else if *kv == "direct" {
+                        direct = true;
+                    }
+                }
+                let chan = if direct {
+                    None
+                } else {
+                    match (lat, jit) {
+                        (Some(l), Some(j)) => Some((l, j)),
+                        _ => continue,
+                    }
+                };
+                net.links.push(Link { src: src.to_string(), dst: dst.to_string(), chan });
+            }
+            ["rule", path, on, steps @ ..] => {
+                let on = match *on {
+                    "start" => On::Start,
+                    "end" => On::End,
+                    o => match o.strip_prefix("msg:").and_then(|k| k.parse::<u16>().ok()) {
+                        Some(k) => On::Msg(k),
+                        None => continue,
+                    },
+                };
+                let steps: Vec<Step> = steps.iter().filter_map(|s| parse_step(s)).collect();
+                net.rules.push((path.to_string(), on, steps));
+            }
+            ["task", tag, steps @ ..] => {
+                if net.tasks.iter().any(|x| x.0 == *tag) {
+                    continue;
+                }
+                let steps: Vec<Step> = steps.iter().filter_map(|s| parse_step(s)).collect();
+                net.tasks.push((tag.to_string(), steps));
+            }
+            _ => {}
+        }
+    }
+    net
+}
+
+// ------------------------------------------------------------------------------------------ real code
+
+
+struct Shared {
+    log: Vec<String>,
+    drops: Vec<String>,
+    serial: u64,
+    /// `ModuleId` (process-global counter) -> path, filled while the simulation is built
+    ids: Vec<(u16, String)>,
+}
+
+static SH: Mutex<Shared> = Mutex::new(Shared { log: Vec::new(), drops: Vec::new(), serial: 0, ids: Vec::new() });
+
+fn sh() -> std::sync::MutexGuard<'static, Shared> {
+    SH.lock().unwrap_or_else(|e| e.into_inner())
+}
+
+/// one canonical observation: `<time> <path of the active module> <what> <who> <peer> <args...>`
+fn obs(what: &str, who: &str, peer: &str, args: &[u64]) {
+    let t = SimTime::now().as_nanos();
+    let path = current().path();
+    let mut l = format!("{t} {} {what} {who} {peer}", path.as_str());
+    for a in args {
+        write!(l, " {a}").unwrap();
+    }
+    sh().log.push(l);
+}
+
+fn gate_o(dst: &str) -> String {
+    format!("o_{}", dst.replace('.', "-"))
+}
+fn gate_i(src: &str) -> String {
+    format!("i_{}", src.replace('.', "-"))
+}
+
+/// the steps that handlers and tasks share
+fn step_sync(net: &Net, path: &str, st: &Step, ttl: u16, who: &str) {
+    match st {
+        Step::Draw => {
+            let x = des::runtime::random::<u64>();
+            obs("draw", who, "-", &[x]);
+        }
+        Step::Draw32 => {
+            let x = des::runtime::random::<u32>();
+            obs("draw32", who, "-", &[x as u64]);
+        }
+        Step::Send(dst, kind) => {
+            if ttl == 0 || !net.links.iter().any(|l| l.src == path && l.dst == *dst) {
+                return;
+            }
+            let serial = {
+                let mut s = sh();
+                s.serial += 1;
+                s.serial
+            };
+            obs("send", who, dst, &[*kind as u64, (ttl - 1) as u64, serial]);
+            send(Message::default().kind(*kind).id(ttl - 1).with_content(serial), gate_o(dst).as_str());
+        }
+        Step::Sched(delay, kind) => {
+            if ttl == 0 {
+                return;
+            }
+            let serial = {
+                let mut s = sh();
+                s.serial += 1;
+                s.serial
+            };
+            obs("sched", who, "-", &[*kind as u64, (ttl - 1) as u64, serial, *delay]);
+            schedule_in(Message::default().kind(*kind).id(ttl - 1).with_content(serial), Duration::from_nanos(*delay));
+        }
+        Step::Spawn(_) | Step::Sleep(_) | Step::Sel(_) => {}
+    }
+}
+
+/// logs the unfinished tasks that are dropped together with their module's tokio runtime
+struct DropGuard {
+    path: String,
+    tag: String,
+    done: bool,
+}
+impl Drop for DropGuard {
+    fn drop(&mut self) {
+        if !self.done {
+            sh().drops.push(format!("{} {}", self.path, self.tag));
+        }
+    }
+}
+
+/// one branch of a `select!`: records that it was polled
+struct Probe {
+    idx: u8,
+    inner: Pin<Box<des::time::Sleep>>,
+    polled: Arc<Mutex<Vec<u8>>>,
+}
+impl Future for Probe {
+    type Output = ();
+    fn poll(mut self: Pin<&mut Self>, cx: &mut Context<'_>) -> Poll<()> {
+        let idx = self.idx;
+        self.polled.lock().unwrap().push(idx);
+        self.inner.as_mut().poll(cx)
+    }
+}
+
+/// the `select!` future itself: logs, per poll, which branches were polled in which order
+struct MarkPoll {
+    tag: String,
+    inner: Pin<Box<dyn Future<Output = u64> + Send>>,
+    polled: Arc<Mutex<Vec<u8>>>,
+}
+impl Future for MarkPoll {
+    type Output = u64;
+    fn poll(mut self: Pin<&mut Self>, cx: &mut Context<'_>) -> Poll<u64> {
+        self.polled.lock().unwrap().clear();
+        let r = self.inner.as_mut().poll(cx);
+        let v: Vec<u64> = self.polled.lock().unwrap().iter().map(|x| *x as u64).collect();
+        obs("sp", &self.tag, "-", &v);
+        r
+    }
+}
+
+fn do_select(tag: &str, ds: &[u64]) -> MarkPoll {
+    let polled = Arc::new(Mutex::new(Vec::<u8>::new()));
+    let ds: Vec<u64> = ds.to_vec();
+    let p2 = polled.clone();
+    let inner: Pin<Box<dyn Future<Output = u64> + Send>> = if ds.len() == 2 {
+        Box::pin(async move {
+            let mk = |i: usize| Probe { idx: i as u8, inner: Box::pin(des::time::sleep(Duration::from_nanos(ds[i]))), polled: p2.clone() };
+            tokio::select! {
+                _ = mk(0) => 0u64,
+                _ = mk(1) => 1u64,
+            }
+        })
+    } else {
+        Box::pin(async move {
+            let mk = |i: usize| Probe { idx: i as u8, inner: Box::pin(des::time::sleep(Duration::from_nanos(ds[i]))), polled: p2.clone() };
+            tokio::select! {
+                _ = mk(0) => 0u64,
+                _ = mk(1) => 1u64,
+                _ = mk(2) => 2u64,
+            }
+        })
+    };
+    MarkPoll { tag: tag.to_string(), inner, polled }
+}
+
+fn spawn_task(net: Arc<Net>, path: String, tag: String, steps: Vec<Step>, ttl: u16) {
+    tokio::spawn(async move {
+        let mut guard = DropGuard { path: path.clone(), tag: tag.clone(), done: false };
+        for st in &steps {
+            match st {
+                Step::Sleep(d) => {
+                    des::time::sleep(Duration::from_nanos(*d)).await;
+                    obs("woke", &tag, "-", &[]);
+                }
+                Step::Sel(ds) => {
+                    let w = do_select(&tag, ds).await;
+                    obs("sel", &tag, "-", &[w]);
+                }
+                s => step_sync(&net, &path, s, ttl, &tag),
+            }
+        }
+        guard.done = true;
+    });
+}
+
+struct Node {
+    net: Arc<Net>,
+    ttl0: u16,
+}
+
+impl Node {
+    fn run_rule(&self, on: On, ttl: u16) {
+        let path = current().path().as_str().to_string();
+        let Some(rule) = self.net.rules.iter().find(|r| r.0 == path && r.1 == on) else { return };
+        for st in &rule.2 {
+            match st {
+                Step::Spawn(tag) => {
+                    if let Some(t) = self.net.tasks.iter().find(|t| t.0 == *tag) {
+                        spawn_task(self.net.clone(), path.clone(), tag.clone(), t.1.clone(), ttl);
+                    }
+                }
+                s => step_sync(&self.net, &path, s, ttl, "H"),
+            }
+        }
+    }
+}
+
+impl Module for Node {
+    fn at_sim_start(&mut self, _stage: usize) {
+        obs("start", "H", "-", &[]);
+        self.run_rule(On::Start, self.ttl0);
+    }
+    fn handle_message(&mut self, msg: Message) {
+        let kind = msg.header().kind;
+        let ttl = msg.header().id;
+        let sender = msg.header().sender_module_id.0;
+        let serial = msg.try_content::<u64>().copied().unwrap_or(0);
+        // the sender's ModuleId is resolved to a path: ids are compared, never printed
+        let src = sh().ids.iter().find(|x| x.0 == sender).map(|x| x.1.clone()).unwrap_or_else(|| "-".into());
+        obs("msg", "H", &src, &[kind as u64, ttl as u64, serial]);
+        self.run_rule(On::Msg(kind), ttl);
+    }
+    fn at_sim_end(&mut self) -> Result<(), RuntimeError> {
+        obs("end", "H", "-", &[]);
+        self.run_rule(On::End, self.ttl0);
+        Ok(())
+    }
+}
+
+struct RunOut {
+    log: Vec<String>,
+    drops: Vec<String>,
+    /// `SimTime::now()` as seen while the network is built (before `Builder::build`)
+    built_at: u128,
+    res: String,
+}
+
+static BUILT_AT: Mutex<u128> = Mutex::new(0);
+
+fn simulate(net: &Arc<Net>, seed: u64) -> RunOut {
+    {
+        let mut s = sh();
+        s.log.clear();
+        s.drops.clear();
+        s.serial = 0;
+        s.ids.clear();
+    }
+    let net2 = net.clone();
+    let r = guarded(move || {
+        let net = net2;
+        let mut sim = Sim::new(());
+        for (path, ttl) in &net.mods {
+            sim.node(path.as_str(), Node { net: net.clone(), ttl0: *ttl });
+            if let Some(m) = sim.globals().get(&ObjectPath::from(path.as_str())) {
+                let id = m.id().0;
+                sh().ids.push((id, path.clone()));
+            }
+        }
+        for l in &net.links {
+            let o = sim.gate(l.src.as_str(), &gate_o(&l.dst));
+            let i = sim.gate(l.dst.as_str(), &gate_i(&l.src));
+            let ch = l.chan.map(|(lat, jit)| {
+                Channel::new(ChannelMetrics::new(0, Duration::from_nanos(lat), Duration::from_nanos(jit), ChannelDropBehaviour::Drop))
+            });
+            o.connect(i, ch);
+        }
+        *BUILT_AT.lock().unwrap_or_else(|e| e.into_inner()) = SimTime::now().as_nanos();
+        let rt = Builder::seeded(seed).quiet().build(sim.freeze());
+        match rt.run() {
+            Ok((app, t, prof)) => {
+                let s = format!("ok time={} events={} left={}", t.as_nanos(), prof.event_count, prof.remaining.len());
+                drop(prof);
+                drop(app);
+                s
+            }
+            Err(e) => {
+                let e: String = format!("{e:?}").chars().filter(|c| c.is_ascii_alphanumeric()).take(60).collect();
+                format!("err=runtime:{e}")
+            }
+        }
+    });
+    let res = match r {
+        Ok(s) => s,
+        Err(p) => {
+            let p: String = p.chars().filter(|c| c.is_ascii_alphanumeric()).take(60).collect();
+            format!("err=panic:{p}")
+        }
+    };
+    let mut s = sh();
+    let built_at = *BUILT_AT.lock().unwrap_or_else(|e| e.into_inner());
+    RunOut { log: std::mem::take(&mut s.log), drops: std::mem::take(&mut s.drops), built_at, res }
+}
+
+/// behaviour of `TimerQueue::next` behind an emptied front slot (a parameter of the model):
+/// `skip` = the deadline of the first slot that still has an entry, `front` = only the front slot counts
+fn probe_tq() -> &'static str {
+    let body: Vec<String> = ["mod p ttl=0", "rule p start spawn:t", "task t sel:1,5 sleep:10"].iter().map(|s| s.to_string()).collect();
+    let net = Arc::new(parse(&body));
+    let out = simulate(&net, 1);
+    if out.res.contains("time=11 ") {
+        "skip"
+    } else {
+        "front"
+    }
+}
+
+fn is_result_line(l: &str) -> bool {
+    l.starts_with("o ") || l.starts_with("d ") || l.starts_with("bt ") || l.starts_with("res ")
+}
+
+fn emit_run(out: &mut String, name: &str, r: &RunOut, clock: bool) {
+    if clock {
+        writeln!(out, "bt {name} {}", r.built_at).unwrap();
+    }
+    for l in &r.log {
+        writeln!(out, "o {name} {l}").unwrap();
+    }
+    for l in &r.drops {
+        writeln!(out, "d {name} {l}").unwrap();
+    }
+    writeln!(out, "res {name} {}", r.res).unwrap();
+}
+
+pub fn exec(input: &str) -> String {
+    let child_mode = std::env::var("HX_C04_CHILD").map(|v| v == "1").unwrap_or(false);
+    let cs: Vec<(String, Vec<String>)> = cases(input)
+        .into_iter()
+        .map(|(h, b)| {
+            let h: String = h.split_whitespace().filter(|t| !t.starts_with("tq=")).collect::<Vec<_>>().join(" ");
+            (h, b.into_iter().filter(|l| !is_result_line(l)).collect())
+        })
+        .collect();
+    let mut out = String::new();
+    if child_mode {
+        // single-run mode: every case once, in order
+        for (header, body) in &cs {
+            let net = Arc::new(parse(body));
+            let seed: u64 = hval(header, "seed").and_then(|v| v.parse().ok()).unwrap_or(1);
+            let r = simulate(&net, seed);
+            writeln!(out, "{header}").unwrap();
+            let clock = hval(header, "clock").map(|v| v == "1").unwrap_or(false);
+            emit_run(&mut out, "c", &r, clock);
+            writeln!(out, "end").unwrap();
+        }
+        return out;
+    }
+    // the child works on its batch while this process does its own runs
+    let wants_child: Vec<bool> = cs.iter().map(|(h, _)| hval(h, "child").map(|v| v == "1").unwrap_or(false)).collect();
+    let mut child = None;
+    if wants_child.iter().any(|b| *b) {
+        let mut feed = String::new();
+        for ((h, b), w) in cs.iter().zip(&wants_child) {
+            if *w {
+                writeln!(feed, "{h}").unwrap();
+                for l in b {
+                    writeln!(feed, "{l}").unwrap();
+                }
+                writeln!(feed, "end").unwrap();
+            }
+        }
+        if let Ok(exe) = std::env::current_exe() {
+            if let Ok(mut ch) = std::process::Command::new(exe)
+                .args(["c04", "exec"])
+                .env("HX_C04_CHILD", "1")
+                .stdin(std::process::Stdio::piped())
+                .stdout(std::process::Stdio::piped())
+                .stderr(std::process::Stdio::null())
+                .spawn()
+            {
+                if let Some(mut si) = ch.stdin.take() {
+                    let _ = si.write_all(feed.as_bytes());
+                }
+                child = Some(ch);
+            }
+        }
+    }
+    let tq = probe_tq();
+    let mut mine: Vec<(RunOut, RunOut, RunOut)> = Vec::new();
+    for (header, body) in &cs {
+        let net = Arc::new(parse(body));
+        let seed: u64 = hval(header, "seed").and_then(|v| v.parse().ok()).unwrap_or(1);
+        let noise: u64 = hval(header, "noise").and_then(|v| v.parse().ok()).unwrap_or(7);
+        let a1 = simulate(&net, seed);
+        let a2 = simulate(&net, seed);
+        // an unrelated simulation: other size, other seed, other end time
+        let mut nr = Rng::new(noise);
+        let mut ntext = String::new();
+        gen_case(&mut nr, &mut ntext, true);
+        let nbody: Vec<String> = ntext.lines().map(|l| l.to_string()).collect();
+        let nnet = Arc::new(parse(&nbody));
+        let _ = simulate(&nnet, noise ^ 0x5555);
+        let b = simulate(&net, seed);
+        mine.push((a1, a2, b));
+    }
+    // child results, in the order in which the cases were fed
+    let mut child_runs: Vec<Vec<String>> = Vec::new();
+    let mut child_ok = false;
+    if let Some(ch) = child {
+        if let Ok(o) = ch.wait_with_output() {
+            child_ok = o.status.success();
+            let text = String::from_utf8_lossy(&o.stdout).to_string();
+            let mut cur: Option<Vec<String>> = None;
+            for line in text.lines() {
+                if line.starts_with("case ") {
+                    cur = Some(Vec::new());
+                } else if line == "end" {
+                    if let Some(c) = cur.take() {
+                        child_runs.push(c);
+                    }
+                } else if let Some(c) = cur.as_mut() {
+                    c.push(line.to_string());
+                }
+            }
+        }
+    }
+    let mut ci = 0usize;
+    for (((header, body), w), (a1, a2, b)) in cs.iter().zip(&wants_child).zip(&mine) {
+        writeln!(out, "{header} tq={tq}").unwrap();
+        for l in body {
+            writeln!(out, "{l}").unwrap();
+        }
+        let clock = hval(header, "clock").map(|v| v == "1").unwrap_or(false);
+        emit_run(&mut out, "a1", a1, clock);
+        emit_run(&mut out, "a2", a2, clock);
+        emit_run(&mut out, "b", b, clock);
+        if *w {
+            match child_runs.get(ci) {
+                Some(lines) if child_ok => {
+                    for l in lines {
+                        writeln!(out, "{l}").unwrap();
+                    }
+                }
+                _ => writeln!(out, "res c err=child-failed").unwrap(),
+            }
+            ci += 1;
+        }
+        writeln!(out, "end").unwrap();
+    }
+    out
+}
+
+// ------------------------------------------------------------------------------------------ generator
+
+const DELAYS: [u64; 8] = [0, 1, 1, 2, 2, 3, 5, 1000];
+const LATS: [u64; 8] = [0, 1, 2, 2, 3, 5, 10, 1000];
+const JITS: [u64; 8] = [0, 0, 1, 2, 4, 7, 50, 1000];
+
+fn gen_steps(r: &mut Rng, out: &mut String, in_task: bool, peers: &[String], kinds: u64, tasks: &[String], draws_only: bool) {
+    let n = r.range(1, 4);
+    let mut emitting = 0;
+    for _ in 0..n {
+        let x = if draws_only { r.below(3) } else { r.below(if in_task { 12 } else { 10 }) };
+        match x {
+            0 | 1 => write!(out, " draw").unwrap(),
+            2 => write!(out, " draw32").unwrap(),
+            3 | 4 | 5 => {
+                if emitting < 2 && !peers.is_empty() {
+                    emitting += 1;
+                    write!(out, " send:{}:{}", r.pick(peers), r.range(1, kinds)).unwrap();
+                } else {
+                    write!(out, " draw").unwrap();
+                }
+            }
+            6 => {
+                if emitting < 2 {
+                    emitting += 1;
+                    write!(out, " sched:{}:{}", r.pick(&DELAYS), r.range(1, kinds)).unwrap();
+                }
+            }
+            7 | 8 | 9 if !in_task => {
+                if emitting < 2 && !tasks.is_empty() {
+                    emitting += 1;
+                    write!(out, " spawn:{}", r.pick(tasks)).unwrap();
+                }
+            }
+            7 | 8 => write!(out, " sleep:{}", r.pick(&DELAYS)).unwrap(),
+            _ => {
+                // select over 2-3 sleeps; mostly equal deadlines, so that the seeded start index decides
+                let k = r.range(2, 3);
+                let d = *r.pick(&DELAYS);
+                let ds: Vec<String> = (0..k).map(|_| if r.chance(3, 4) { d.to_string() } else { r.pick(&DELAYS).to_string() }).collect();
+                write!(out, " sel:{}", ds.join(",")).unwrap();
+            }
+        }
+    }
+}
+
+/// one generated network (the lines between `case` and `end`)
+fn gen_case(r: &mut Rng, out: &mut String, noise: bool) {
+    let nmods = if noise { r.range(3, 9) } else { r.range(2, 6) } as usize;
+    let mut paths: Vec<String> = Vec::new();
+    for i in 0..nmods {
+        // some modules are children of earlier ones (module-tree order differs from creation order)
+        let p = if i > 0 && r.chance(1, 3) {
+            let parent = r.pick(&paths).clone();
+            if parent.matches('.').count() < 2 {
+                format!("{parent}.n{i}")
+            } else {
+                format!("n{i}")
+            }
+        } else {
+            format!("n{i}")
+        };
+        writeln!(out, "mod {p} ttl={}", r.range(1, 3)).unwrap();
+        paths.push(p);
+    }
+    // topology: chain, star or random tree; every edge in both directions
+    let shape = r.below(3);
+    let mut edges: Vec<(usize, usize)> = Vec::new();
+    for i in 1..nmods {
+        let j = match shape {
+            0 => i - 1,
+            1 => 0,
+            _ => r.below(i as u64) as usize,
+        };
+        edges.push((j, i));
+    }
+    if nmods > 2 && r.chance(1, 3) {
+        let a = r.below(nmods as u64) as usize;
+        let b = r.below(nmods as u64) as usize;
+        if a != b && !edges.contains(&(a, b)) && !edges.contains(&(b, a)) {
+            edges.push((a, b));
+        }
+    }
+    let mut peers: Vec<Vec<String>> = vec![Vec::new(); nmods];
+    for (a, b) in &edges {
+        for (s, d) in [(*a, *b), (*b, *a)] {
+            if r.chance(1, 6) {
+                writeln!(out, "link {} {} direct", paths[s], paths[d]).unwrap();
+            } else {
+                writeln!(out, "link {} {} lat={} jit={}", paths[s], paths[d], r.pick(&LATS), r.pick(&JITS)).unwrap();
+            }
+            peers[s].push(paths[d].clone());
+        }
+    }
+    let kinds = r.range(2, 4);
+    let ntasks = r.range(1, 4) as usize;
+    let tasks: Vec<String> = (0..ntasks).map(|i| format!("t{i}")).collect();
+    for (i, p) in paths.iter().enumerate() {
+        if r.chance(4, 5) {
+            write!(out, "rule {p} start").unwrap();
+            gen_steps(r, out, false, &peers[i], kinds, &tasks, false);
+            writeln!(out).unwrap();
+        }
+        for k in 1..=kinds {
+            if r.chance(3, 4) {
+                write!(out, "rule {p} msg:{k}").unwrap();
+                gen_steps(r, out, false, &peers[i], kinds, &tasks, false);
+                writeln!(out).unwrap();
+            }
+        }
+        if r.chance(1, 3) {
+            write!(out, "rule {p} end").unwrap();
+            gen_steps(r, out, false, &peers[i], kinds, &tasks, true);
+            writeln!(out).unwrap();
+        }
+    }
+    for t in &tasks {
+        write!(out, "task {t}").unwrap();
+        // a task runs on whichever module spawns it: it may name any peer (unknown links are skipped)
+        let all: Vec<String> = paths.clone();
+        gen_steps(r, out, true, &all, kinds, &tasks, false);
+        if r.chance(1, 2) {
+            gen_steps(r, out, true, &all, kinds, &tasks, false);
+        }
+        writeln!(out).unwrap();
+    }
+}
+
+pub fn gen(seed: u64, count: usize, _thorough: bool) -> String {
+    let mut r = Rng::new(seed);
+    let mut out = String::new();
+    for k in 0..count {
+        let s = r.next() >> r.below(60);
+        // one case in 16 also records the clock as seen while the network is built
+        let clock = if r.chance(1, 16) { " clock=1" } else { "" };
+        writeln!(out, "case {k} seed={s} noise={} child=1{clock}", r.range(1, 1 << 20)).unwrap();
+        gen_case(&mut r, &mut out, false);
+        writeln!(out, "end").unwrap();
+    }
+    out
 }
